@@ -1307,6 +1307,7 @@ func addOffset(c *core.Ctx, enc *encoding.FixedOffsetEncoder, v int) (ok bool) {
 
 func fixedOffsetCase(c *core.Ctx, r *rand.Rand) {
 	byteSlice2Uint32Ops(c, r)
+	foScanReuse(c, r) // Round 12: access-pattern histories on one decoder object (foscan.go)
 	var enc *encoding.FixedOffsetEncoder
 	var dec *encoding.FixedOffsetDecoder
 	defer func() {
